@@ -61,7 +61,7 @@ def run(ctx):
         s3 = ctx.tlc("LiveConfig", "LiveConfig_sched3.cfg", workers=1, count=False, simulate=150,
                      depth=12).printed_json("SCHED")
     else:
-        s3 = ctx.tlc("LiveConfig", "LiveConfig_sched3.cfg", workers=1, count=False, simulate=4000,
+        s3 = ctx.tlc("LiveConfig", "LiveConfig_sched3.cfg", workers=1, count=False, simulate=2000,
                      depth=12, timeout=1800).printed_json("SCHED")
     scheds += s3
     ctx.log("schedules: %d of %d two-thread (exhaustive enumeration) + %d three-thread (simulated)"
@@ -70,7 +70,7 @@ def run(ctx):
         json.dump(scheds, fh)
 
     ctx.harness("./c35", "TestLiveConfig", race=not ctx.quick,
-                env={"VERIF_SEQ": ctx.pick(60, 600), "VERIF_STRESS": ctx.pick(40, 600)}, timeout=1800)
+                env={"VERIF_SEQ": ctx.pick(60, 300), "VERIF_STRESS": ctx.pick(40, 300)}, timeout=1800)
     st = json.load(open(ctx.path("stats.json")))
     missing = [g for g in ("lc.enter", "lc.checked", "lc.commit", "lc.snapshot") if not st["hook_events"].get(g)]
     if missing:
